@@ -7,7 +7,7 @@ from lib.coqterm import cbytes, cbool, copt, cN, clist, hx, unhx
 
 ID = "C54"
 QUICK_N = 3000
-THOROUGH_N = 60000
+THOROUGH_N = 40000
 SHARD = 250
 RULE = ("a case is a history of 2-9 response/request events driven through one real StickyCookie instance. 70%: "
         "responses from a host of a related-host family (base, sub, parent, look-alikes that contain the base as an "
@@ -407,18 +407,31 @@ def oracle(case, obs):
                 pairs = [(_u(n), _u(val)) for i in idx for n, val in jar[i][1]]
                 return bool(pairs) and _b(cookies.format_cookie_header(pairs)) == o["header"]
 
-            def failed(i):
+            SEVERITY = ["attach-path-prefix-not-segment", "attach-domain-extra-dots", "attach-domain-inner-substring",
+                        "attach-path-other", "attach-domain-other", "attach-port"]
+
+            def problems(i):
+                """violated conditions of jar entry i for this request: [(key, what)]"""
                 (d, p, q), _items = jar[i]
-                return ((p != port) + (not rfc_domain_match(host, rfc_cookie_domain(_u(d))))
-                        + (q is None or not rfc_path_match(upath, _u(q))))
+                out = []
+                if p != port:
+                    out.append(("attach-port", f"cookie of port {p} attached to request to port {port}"))
+                if not rfc_domain_match(host, rfc_cookie_domain(_u(d))):
+                    out.append(("attach-" + _dom_family(host, _u(d)),
+                                f"cookie with domain {_u(d)!r} attached to request to host {ev['host']!r}"))
+                if q is None or not rfc_path_match(upath, _u(q)):
+                    fam = "path-prefix-not-segment" if q is not None and _u(ev["path"]).startswith(_u(q)) else "path-other"
+                    out.append(("attach-" + fam, f"cookie with path {_u(q)!r} attached to request for {_u(ev['path'])!r}"))
+                return out
 
             def search(pool):
-                """the explanation of the header by jar entries that needs the fewest failed conditions"""
+                """the observation only shows the header: among all ways to explain it by jar entries take the most
+                charitable one (mildest worst problem, then fewest problems)"""
                 best = None
                 for r in range(1, len(pool) + 1):
                     for sub in itertools.combinations(pool, r):
                         if explains(sub):
-                            cost = sum(failed(i) for i in sub)
+                            cost = sorted((SEVERITY.index(k) for i in sub for k, _ in problems(i)), reverse=True)
                             if best is None or cost < best[0]:
                                 best = (cost, sub)
                 return None if best is None else best[1]
@@ -429,18 +442,8 @@ def oracle(case, obs):
                 if sub is None:
                     v.append({"key": "attach-unexplained", "what": f"Cookie header {_u(o['header'])!r} on request to {ev['host']!r} is not made of jar entries"})
                 for i in (sub or []):
-                    if i not in bad_ents:
-                        continue
-                    (d, p, q), _items = jar[i]
-                    if p != port:
-                        v.append({"key": "attach-port", "what": f"cookie of port {p} attached to request to port {port}"})
-                    if not rfc_domain_match(host, rfc_cookie_domain(_u(d))):
-                        v.append({"key": "attach-" + _dom_family(host, _u(d)),
-                                  "what": f"cookie with domain {_u(d)!r} attached to request to host {ev['host']!r}"})
-                    if not rfc_path_match(upath, _u(q)):
-                        fam = "path-prefix-not-segment" if _u(ev["path"]).startswith(_u(q)) else "path-other"
-                        v.append({"key": "attach-" + fam,
-                                  "what": f"cookie with path {_u(q)!r} attached to request for {_u(ev['path'])!r}"})
+                    for k, w in problems(i):
+                        v.append({"key": k, "what": w})
     # one report per family and case; the known findings describe the unchanged code only: on a tree that has the
     # repaired predicates the same families are regressions and get their own keys
     seen, out = set(), []
